@@ -423,6 +423,31 @@ def w_detect(ctx, rng, idx):
                       f"{p} configured (6 sigma = {6 * sigma:.1f})", "detection-errors:" + ("false-neg" if excited else "false-pos"))
     if sum(cnt.values()) != N:
         ctx.violation("detection-errors", f"{sum(cnt.values())} samples returned for {N} requested", "sample-count")
+    # ---- same sequence + same configuration (detection errors only) on an emulator that drew badly prepared atoms
+    #      under an earlier configuration: the states must be those of a fresh emulator (blockaded pair) -------------
+    reg = pulser.Register({"a": (0.0, 0.0), "b": (5.0, 0.0)})
+    sq = pulser.Sequence(reg, pulser.MockDevice)
+    sq.declare_channel("ch", "rydberg_global")
+    sq.add(pulser.Pulse.ConstantPulse(300, 6.0, 0.0, 0.0), "ch")
+    with warnings.catch_warnings():
+        warnings.simplefilter("ignore")
+        fresh = np.asarray(QutipEmulator.from_sequence(sq, config=cfg).run().get_final_state().full()).ravel()
+        np.random.seed(7 + idx)
+        e2 = QutipEmulator.from_sequence(sq, config=SimConfig(noise="SPAM", eta=0.97, epsilon=0.0, epsilon_prime=0.0,
+                                                              runs=2, samples_per_run=1))
+        how = ["set_config", "run+set_config", "add_config+set_config"][idx // 7 % 3]
+        if how.startswith("run"):
+            e2.run()
+        if how.startswith("add"):
+            e2.add_config(SimConfig(noise="dephasing", dephasing_rate=0.1))
+            e2.set_config(SimConfig(noise="SPAM", eta=0.97, runs=2, samples_per_run=1))
+        e2.set_config(cfg)
+        again = np.asarray(e2.run().get_final_state().full()).ravel()
+    ctx.count("spam_reconfigured_emulators_compared")
+    if fresh.shape != again.shape or np.max(np.abs(np.abs(fresh) ** 2 - np.abs(again) ** 2)) > 1e-6:
+        ctx.violation("config-history", f"after {how} from a configuration with state-preparation errors to one with "
+                      f"detection errors only, populations {np.round(np.abs(again) ** 2, 4)} differ from a fresh emulator's "
+                      f"{np.round(np.abs(fresh) ** 2, 4)} (two atoms 5 um apart)", "reconfigured-emulator-differs:spam")
 
 
 def w_sweep(ctx, rng, idx, tier):
